@@ -14,6 +14,7 @@ import (
 	"github.com/IrineSistiana/mosproxy/internal/dnsmsg"
 	"github.com/IrineSistiana/mosproxy/internal/mlog"
 	"github.com/IrineSistiana/mosproxy/internal/pool"
+	"github.com/rs/zerolog"
 )
 
 // VerifC08Cache wraps a cacheCtl built by the real initCache (memory backend only).
@@ -66,3 +67,36 @@ func (v *VerifC08Cache) Close() { v.c.Close() }
 
 // VerifC08DefaultMaxCacheTtl is the package constant defaultMaxCacheTtl.
 const VerifC08DefaultMaxCacheTtl = defaultMaxCacheTtl
+
+// VerifC08Router is a router started by the real run() (no listeners needed: queries are fed to the
+// real handleServerReq, the entry point every listener calls).
+type VerifC08Router struct {
+	r *router
+}
+
+// VerifC08Run starts a router from cfg through the real run().
+func VerifC08Run(cfg *Config) (*VerifC08Router, error) {
+	r, err := run(context.Background(), cfg)
+	if err != nil {
+		return nil, err
+	}
+	return &VerifC08Router{r: r}, nil
+}
+
+// Query runs one client query through the real handleServerReq, exactly as the listeners do
+// (getRequestContext, handleServerReq, take the response, releaseRequestContext).
+func (v *VerifC08Router) Query(m *dnsmsg.Msg, remote netip.AddrPort) *dnsmsg.Msg {
+	rc := getRequestContext()
+	rc.RemoteAddr = remote
+	v.r.handleServerReq(m, rc)
+	resp := rc.Response.Msg
+	rc.Response.Msg = nil
+	releaseRequestContext(rc)
+	return resp
+}
+
+// Close is router.close.
+func (v *VerifC08Router) Close() { v.r.close(nil) }
+
+// VerifC08Quiet raises the global log level so that the router's console logger stays off stdout.
+func VerifC08Quiet() { mlog.SetLvl(zerolog.ErrorLevel) }
